@@ -50,6 +50,7 @@ class C14(EngineBase):
         st.config = config
         st.heap = {}
         st.ctx = None
+        st.libalias = {}
         return st
 
     # ------------------------------------------------------------ generate
@@ -85,13 +86,23 @@ class C14(EngineBase):
         return {n: S.snap(v) for n, v in heap.items()
                 if S.kind_of(v) in "AFV"}
 
-    def _compare_heap(self, st, before, step, skip_ids=(), what="out-of-place"):
+    def _compare_heap(self, st, before, step, skip_ids=(), what="out-of-place", force_names=()):
         """Every snapshotted value must be identical to its snapshot."""
         op = step["op"]
         operands = set(step.get("in", []))
         for n, s0 in before.items():
             v = st.heap.get(n)
-            if v is None or id(v) in skip_ids:
+            if v is None or (id(v) in skip_ids and n not in force_names):
+                continue
+            if n in force_names:
+                s1 = S.snap(v)
+                if s1 != s0:
+                    src = st.libalias.get(n) or next(
+                        (st.libalias[m] for m in st.libalias if st.heap.get(m) is v), "?")
+                    self.report(st, "operand-unchanged", src,
+                                f"{n} changed in {S.diff_field(s0, s1)} by the in-place {op} requested on "
+                                f"{step['in'][0]}: the out-of-place {src} had returned its operand itself",
+                                ["alias-returned"])
                 continue
             s1 = S.snap(v)
             if s1 != s0:
@@ -172,6 +183,14 @@ class C14(EngineBase):
             st.stats["step.ok"] += 1
             st.stats["op." + op] += 1
             self._compare_heap(st, before, step)
+            # an out-of-place call that hands back one of its operands: the
+            # two names now denote one object, remembered for later in-place
+            # requests on either (which must not reach the other)
+            vals_ = res if isinstance(res, tuple) else (res,)
+            for o_, v_ in zip(step.get("out", []), vals_):
+                if S.kind_of(v_) in "AFV" and any(v_ is heap.get(n_) for n_ in step.get("in", [])):
+                    st.libalias[o_] = op
+                    st.stats["reach.result_is_operand"] += 1
             ops.bind(step, heap, res)
             st.log.add("ok", [op, S.structure(res) if S.kind_of(res) in "AF" else S.kind_of(res)])
 
@@ -210,7 +229,10 @@ class C14(EngineBase):
         st.stats["step.ok"] += 1
         st.stats["op." + op + ".inplace"] += 1
         st.stats["reach.inplace"] += 1
-        self._compare_heap(st, before, step, skip_ids={id(target)}, what="in-place")
+        tname = step["in"][0]
+        same = [n for n, v in heap.items() if v is target and n != tname]
+        force = set(same) if any(n in st.libalias for n in same + [tname]) else set()
+        self._compare_heap(st, before, step, skip_ids={id(target)}, what="in-place", force_names=force)
         if twin is not None and twin_exc is None and S.kind_of(expected) in "AFV":
             # the statement is about the value found in place; what the call
             # returns (self, by convention) is not part of it
